@@ -312,7 +312,7 @@ def replay(ck, tools, scr, path, monitor):
     return [res]
 
 
-def report(ck, results, pool, kinds_of_interest=None, max_per_kind=2, shrink_budget=350):
+def report(ck, results, pool, kinds_of_interest=None, max_per_kind=2, shrink_budget=1500):
     """turn failing results into minimised violations"""
     fails = {}
     for r in results:
